@@ -24,6 +24,7 @@ EXPLANATION += (" Second audit wave: C03.12 (= C17.10) the instants handed to GE
 EXPLANATION += (' Third audit wave: C03.13 (= C13.13) ook.THRESHOLD_EST returns the middle element of the set of exact minimisers of its cost, never the first (argmin, ties[0]) or last: on a noise-free link the cost is exactly 0 over most of [mu0, mu1] and the first zero sits 0.1-1.5 % of the eye above mu0. C03.14 (= C17.12) GET_EYE reads its threshold off the grid linspace(mu0, mu1, n) at the density minimum only under 0 < index < n-1 (or from a grid without its end points); an end-point minimum is a level, not a valley. C03.15 every whole slot of the record enters the eye statistics: the record is cut by its remainder modulo sps (a partial slot), never modulo two slots, and an odd count is continued by one slot so that it folds - the receiver decides every slot, and the last slot of an odd count (next to the wrap-around of the FFT based devices, the most disturbed one) was otherwise decided without having been seen.')
 EXPLANATION += (" Fourth audit wave: C03.16 the density valley that gives GET_EYE's threshold is searched between the bulks of the two populations: an alternative of the search grid runs from mu0 + a*s0 to mu1 - b*s1 with a, b >= 1. From level to level the grid includes the inner half of each population, where a level split by inter-symbol interference on a short record has a dip of its own (two PPM symbols: threshold above the lowest ON sample). C03.12 requires the one-slot image of the crossings on every alternative of the clustered value.")
 EXPLANATION += (" C03.17 (open known finding): ppm.DSP applies a threshold estimated around the eye's own instant (eye.i) to the samples at gv.sps//2; holds only when GET_EYE is told the decision instant. The failing input and why the one-line repair (decide at eye.i) was rejected are in known_findings.json and DESIGN 3.4.")
+EXPLANATION += (" Wave 14: C03.18 the fibre of the link applies the linear operator of C07 / C08 (loss, beta_2, beta_3 terms on the signal's own unshifted frequency grid, whatever gv.N holds).")
 TRUSTED = ["the per-block properties C05, C06, C09, C11, C12, C17", "numpy comparison/sum semantics"]
 LEVEL_TEXT = ("Partial, structural: decides the wiring of ook.DSP / ppm.DSP (sampling instant, comparator, threshold source, decoder order) and the "
               "error-counter formula - necessary conditions of C03. The end-to-end claim over all bit patterns and configurations is not decided by "
@@ -316,6 +317,11 @@ def run(ctx):
     rule_tied_minimisers(ctx, "C03.13")
     from .c17 import rule_threshold_interior
     rule_threshold_interior(ctx, "C03.14", "C03.16")
+    # C03.18: "optional linear fibre": the fibre of the link applies the linear operator of C07 / C08 on the frequency grid of the signal itself
+    from ..rules import run_relabelled
+    from . import c07 as _c07, c08 as _c08
+    _fi, _it = _c07.fiber_forms(ctx)
+    run_relabelled(ctx, _c08.rule_dop, {"C03.18": "C03.18"}, _fi, _it, "C03.18")
     # every stage of the link reads the sampling grid in force when it is CALLED (a default or cache bound earlier describes another grid)
     check_late_binding(ctx, "C03.5", ["ook.DSP", "ppm.DSP", "ook.BER_analizer", "ppm.BER_analizer", "devices.DAC", "devices.MZM", "devices.PD", "devices.SAMPLER", "devices.LPF",
                                       "devices.GET_EYE", "devices.DM", "ppm.PPM_ENCODER", "ppm.PPM_DECODER", "ppm.HDD", "ppm.SDD", "ppm.THRESHOLD_EST", "ook.THRESHOLD_EST"])
